@@ -20,9 +20,9 @@ from .lib_fm import V, N, R, op, call, el, cmp_, assign, decl, unit, NONE, NotAp
 from .core import MachineryError
 
 STD_TYPES = {'n': 'int', 'm': 'int', 'flag': 'log', 'ia': 'int', 'ra': 'real', 'ib': 'int', 'k': 'int', 'x': 'real',
-             'i': 'int', 'j': 'int', 'l': 'int', 'w': 'int', 't1': 'int', 't2': 'int', 'y': 'real'}
-STD_ORDER = ['n', 'm', 'flag', 'ia', 'ra', 'ib', 'k', 'x', 'i', 'j', 'l', 'w', 't1', 't2', 'y']
-DUMMY_NAMES = {'n': 's1', 'm': 's2', 'flag': 'lg', 'ia': 'a', 'ra': 'b', 'ib': 'c', 'k': 'r', 'x': 'xo'}
+             'i': 'int', 'j': 'int', 'l': 'int', 'w': 'int', 't1': 'int', 't2': 'int', 'y': 'real', 'o': 'int'}
+STD_ORDER = ['n', 'm', 'flag', 'ia', 'ra', 'ib', 'k', 'x', 'o', 'i', 'j', 'l', 'w', 't1', 't2', 'y']
+DUMMY_NAMES = {'n': 's1', 'm': 's2', 'flag': 'lg', 'ia': 'a', 'ra': 'b', 'ib': 'c', 'k': 'r', 'x': 'xo', 'o': 'opt'}
 LOOPVARS = ('i', 'j', 'l', 'w')
 
 
@@ -252,6 +252,8 @@ class GenX(F.Gen):
             roles[v] = L
         if not has_ib:
             roles.pop('ib')
+        if 'optional' in self.f and ck in ('modsub', 'intsub') and rng.random() < 0.8:
+            roles['o'] = D          # OPTIONAL, INTENT(IN) integer dummy, used under PRESENT() only
         if 'lbshift' in self.f:
             # dummy / local arrays with lower bounds that differ from the actual's (the body is derived for the shifted bounds)
             for a in ('ia', 'ra', 'ib'):
@@ -261,7 +263,7 @@ class GenX(F.Gen):
         intents = {}
         for s, r in roles.items():
             if r == D:
-                intents[s] = 'in' if s in ('n', 'm', 'flag') else 'inout' if s in ('ia', 'ra', 'ib') else pick('out', 'out', 'inout')
+                intents[s] = 'in' if s in ('n', 'm', 'flag', 'o') else 'inout' if s in ('ia', 'ra', 'ib') else pick('out', 'out', 'inout')
                 if isfun:
                     intents[s] = 'in'
         # functions have no side effects: no PRINT, no definition of dummies / host entities
@@ -285,6 +287,12 @@ class GenX(F.Gen):
         sub.p_extra = 0.12 if sub.leaf_extra else 0.0
         sub.nest_marked = self.nest_marked
         body = sub.block(depth, nstmts)
+        if roles.get('o') == D:
+            tgt = rng.choice(['t1', 't2'] + (['k'] if roles.get('k') == D else []))
+            st = {'s': 'if', 'conds': [call('present', V('o'))],
+                  'bodies': [[assign(V(tgt), sub.bounded(op('sum', V(tgt), op('prod', V('o'), N(rng.choice([1, 2, 3]))))))]],
+                  'els': [assign(V(tgt), sub.bounded(op('sum', V(tgt), N(rng.choice([3, 5])))))] if rng.random() < 0.6 else []}
+            body.insert(rng.randrange(len(body) + 1), st)
         if roles.get('k') in (D, 'RES'):
             # the result depends on the arguments (otherwise misplaced evaluations go unnoticed)
             body.append(assign(V('k'), sub.bounded(op('sum', V('k'), V('n'), sub.int_expr(1, sub.int_scalars)))))
@@ -327,6 +335,8 @@ class GenX(F.Gen):
         for a in args:
             s = inv[a]
             decls.append(decl(a, STD_TYPES[s], intents[s], sub.arrays.get(s, ())))
+            if s == 'o':
+                decls[-1]['optional'] = True
         for s in STD_ORDER:
             if roles.get(s) in (L, 'RES'):
                 decls.append(decl(nm[s], STD_TYPES[s], 'local', sub.arrays.get(s, ())))
@@ -405,8 +415,11 @@ class GenX(F.Gen):
             actual['x'] = V(rng.choice(cands))
             out_vars.add(actual['x']['name'])
         # scalar inputs
-        for s in ('n', 'm'):
+        for s in ('n', 'm', 'o'):
             if roles.get(s) != 'D':
+                continue
+            if s == 'o' and rng.random() < 0.5:
+                actual[s] = dict(NONE)      # omitted optional argument
                 continue
             r = rng.random()
             plain = [v for v in self.int_scalars_noarr + [v for v in self.active_loops if v != 'w']
@@ -434,7 +447,11 @@ class GenX(F.Gen):
             actual['flag'] = rng.choice([V('flag'), op('not', V('flag')), cmp_('>', V('m'), N(1))])
         args = [actual[inv[a]] for a in h['unit']['args']]
         st = {'s': 'call', 'name': h['name'], 'args': args}
-        if 'kwargs' in self.f and len(args) >= 2 and rng.random() < 0.4:
+        if any(a.get('k') == 'none' for a in args):
+            st['kworder'] = list(range(len(args)))
+            st['npos'] = min(i for i, a in enumerate(args) if a.get('k') == 'none')
+            st['kwnames'] = list(h['unit']['args'])
+        elif 'kwargs' in self.f and len(args) >= 2 and rng.random() < 0.4:
             npos = rng.randint(0, len(args) - 1)
             rest = list(range(npos, len(args)))
             rng.shuffle(rest)
@@ -718,6 +735,8 @@ def _kwcalls(ss):
         if s['s'] == 'call' and s.get('kworder'):
             parts = []
             for pos, i in enumerate(s['kworder']):
+                if s['args'][i].get('k') == 'none':
+                    continue
                 t = F.rx(s['args'][i])
                 parts.append(t if pos < s['npos'] else f"{s['kwnames'][i]}={t}")
             s = raw(f"call {s['name']}({', '.join(parts)})")
@@ -751,7 +770,10 @@ def render_unit(u, prog, ind=2):
         if d.get('param') == 'local':
             lines.append(f"{pad}  {F.TYPES[d['type']]}, parameter :: {d['name']} = {F.rx(d['init'])}")
             continue
-        lines.append(pad + '  ' + F.rdecl(d, d['name'] in u['args']))
+        line = F.rdecl(d, d['name'] in u['args'])
+        if d.get('optional'):
+            line = line.replace(' ::', ', optional ::', 1)
+        lines.append(pad + '  ' + line)
     sfs = [x for x in prog['units'] if x['host'] == u['name'] and x.get('stmtfunc')]
     if sfs:
         dn = sorted({a for x in sfs for a in x['args']})
@@ -1146,7 +1168,7 @@ def tags(prog):
             for a, dn in zip(s['args'], cal['args']):
                 if a.get('k') == 'arr':
                     t.add('elem-actual')
-                elif a.get('k') not in ('var', 'int', 'neg', 'log', 'real'):
+                elif a.get('k') not in ('var', 'int', 'neg', 'log', 'real', 'none'):
                     t.add('expr-actual')
                     hostw = written(cal['body']) - {d['name'] for d in cal['decls']} if cal['host'] else set()
                     if mentions(a) & (outs | hostw):
@@ -1162,6 +1184,8 @@ def tags(prog):
             dums = {d['name'] for d in cal['decls'] if d['name'] in cal['args'] and d['dims']}
             if any(e['name'] in dums and mentions(e['c']) & dums for e in arr_refs(cal['body'])):
                 t.add('nested-subscript')
+            if any(d.get('optional') for d in cal['decls']):
+                t.add('optional-absent' if any(a.get('k') == 'none' for a in s['args']) else 'optional-present')
             if s.get('kworder'):
                 t.add('kwargs')
             if any(c in units for c in called_names(cal)):
@@ -1258,7 +1282,7 @@ def site_candidates(prog, limit=24):
         for path, s in flat_paths:
             if s['s'] == 'call':
                 for ai, a in enumerate(s['args']):
-                    if a.get('k') not in ('var', 'arr', 'int'):
+                    if a.get('k') not in ('var', 'arr', 'int', 'none'):
                         p2 = copy.deepcopy(prog)
                         cur = p2['units'][ui]['body']
                         for step in path:
